@@ -189,7 +189,7 @@ def gen_engine(r: random.Random, profile: str = "engine") -> Dict[str, Any]:
         victim = r.choice(w.scripted)
         turns = w.scripts[victim["name"]]
         pos = min(len(turns) - 1, int(len(turns) * (0.3 + 0.5 * r.random())) // (2 if victim["hft"] else 1))
-        kind = r.choice(["spoof", "resubmit", "dup", "ghost_market", "ghost_cancel", "bad_ctor"])
+        kind = r.choice(["spoof", "resubmit", "dup", "ghost_market", "ghost_cancel", "bad_ctor", "cancel_foreign"])
         mk = w.markets[0]
         op = {"k": kind, "m": 0, "side": r.choice("bs"), "px": {"mode": "abs", "v": mk["p0"]}, "vol": 1,
               "nth": r.randrange(5), "ref": r.choice(["live", "filled", "cancelled", "expired", "any"]),
